@@ -429,11 +429,17 @@ package keeper
 //@   modifies nothing
 
 // Complete: the provider a shard was assigned to (or an address it registered) reports the shard as stored.
-// Scope: completion of a waiting shard. The completion of a migrated shard (status ShardMigrating: release of the old
-// provider, hand-over of the worker, rewrite of every renewal order's shard list) is excluded by the first precondition and
-// is NOT verified.
+// Both branches are under contract. The clauses about the stored shard, the order status and the deposit speak about the
+// completion of a waiting shard (no listed shard of the provider is migrating); for the completion of a migrated shard the
+// hand-over clauses say that the new shard takes over the serving order, the queued renewals and the end height of the old
+// provider's shard. Not stated for the migration branch: the rewrite of the shard lists of the renewal orders (loops L2-L4).
+// Entry hypotheses used only by the migration branch: [scope.migration.source] (the shard a migration comes from is a
+// completed one) and [C13.inv.shardorder] (every shard names an existing order).
 //@ func (msgServer) Complete(goCtx, msg) (resp, err)
-//@   requires [scope.nomigration] forall i int :: 0 <= i && i <= MaxUint64 && has(Shard, i) ==> Shard[i].Status != ShardMigrating
+//@   requires [C13.inv.shardorder] forall i int :: 0 <= i && i <= MaxUint64 && has(Shard, i) ==> has(Order, Shard[i].OrderId)
+//@   requires [scope.migration.source] forall i int, a int, b int :: 0 <= i && i <= MaxUint64 && has(Order, i) && 0 <= a && a < len(Order[i].Shards) && 0 <= b && b < len(Order[i].Shards)
+//@       && has(Shard, Order[i].Shards[a]) && has(Shard, Order[i].Shards[b]) && Shard[Order[i].Shards[a]].Status == ShardMigrating && Shard[Order[i].Shards[b]].Sp == Shard[Order[i].Shards[a]].From
+//@       ==> Shard[Order[i].Shards[b]].Status == ShardCompleted
 //@   requires msg != nil
 //@   requires forall c string :: has(PledgeDebt, c) ==> PledgeDebt[c].Debt.Amount >= 0
 //@   requires forall i int :: 0 <= i && i <= MaxUint64 && has(Shard, i) ==> Shard[i].Pledge.Amount >= 0 && Shard[i].Size_ <= MaxInt64
@@ -447,16 +453,26 @@ package keeper
 //@   loop L3 noframe
 //@   loop L3 invariant -1 <= rangeindex
 //@   loop L3 invariant orderInProgress.UnitPrice == entry(orderInProgress.UnitPrice)
+//@   loop L3 invariant *shard == entry(*shard)
 //@   loop L4 invariant -1 <= rangeindex
+//@   loop L4 invariant *shard == entry(*shard)
 //@   ensures [C10.complete.actor] err == nil ==> actsFor(msg.Creator, msg.Provider, old(has(Node, msg.Provider)), old(Node[msg.Provider]))
-//@   ensures [C13.complete.stored] err == nil ==> exists j int :: 0 <= j && j < len(old(Order[msg.OrderId].Shards))
+//@   ensures [C13.complete.stored] err == nil && old(forall j int :: 0 <= j && j < len(Order[msg.OrderId].Shards) && has(Shard, Order[msg.OrderId].Shards[j]) && Shard[Order[msg.OrderId].Shards[j]].Sp == msg.Provider ==> Shard[Order[msg.OrderId].Shards[j]].Status != ShardMigrating) ==> exists j int :: 0 <= j && j < len(old(Order[msg.OrderId].Shards))
 //@       && has(Shard, old(Order[msg.OrderId].Shards)[j]) && Shard[old(Order[msg.OrderId].Shards)[j]].Sp == msg.Provider
 //@       && Shard[old(Order[msg.OrderId].Shards)[j]].Status == ShardCompleted && Shard[old(Order[msg.OrderId].Shards)[j]].CreatedAt == H
 //@       && Shard[old(Order[msg.OrderId].Shards)[j]].Duration == old(Order[msg.OrderId].Duration)
 //@   at SetExpiredShardBlock assert [C11.complete.sched] shardId == shard.Id && shard.Sp == msg.Provider && shard.Status == ShardCompleted && shard.CreatedAt == H
-//@       && expiredAt == u64(shard.CreatedAt + shard.Duration) && contains(order.Shards, shard.Id)
-//@   ensures [C16.complete.status] err == nil ==> has(Order, msg.OrderId) && Order[msg.OrderId].Status == OrderCompleted
-//@   ensures [C04.complete.deposit] [C06.complete.deposit] err == nil && old(Order[msg.OrderId].Status) != OrderCompleted && moduleAddr("order") != moduleAddr("market")
+//@       && expiredAt == u64(shard.CreatedAt + shard.Duration) && (old(Shard[shard.Id].Status) != ShardMigrating ==> contains(order.Shards, shard.Id))
+//@   at Migrate assert [C04.complete.migrate.handover] [C13.complete.migrate.handover] toShard.Id == shard.Id && old(has(Shard, fromShard.Id)) && fromShard == old(Shard[fromShard.Id])
+//@       && fromShard.Sp == old(Shard[shard.Id].From) && contains(old(Order[msg.OrderId].Shards), fromShard.Id)
+//@       && toShard.OrderId == fromShard.OrderId && toShard.RenewInfos == fromShard.RenewInfos && toShard.CreatedAt == H
+//@       && u64(toShard.CreatedAt + toShard.Duration) == u64(fromShard.CreatedAt + fromShard.Duration)
+//@   at FulfillShard assert [C04.complete.migrate.inherit] [C13.complete.migrate.inherit] old(Shard[shard.Id].Status) == ShardMigrating ==> exists i int :: 0 <= i && i <= MaxUint64
+//@       && old(has(Shard, i)) && old(Shard[i].Sp) == old(Shard[shard.Id].From) && contains(old(Order[msg.OrderId].Shards), i)
+//@       && shard.RenewInfos == old(Shard[i].RenewInfos) && shard.OrderId == old(Shard[i].OrderId) && shard.CreatedAt == H
+//@       && u64(shard.CreatedAt + shard.Duration) == u64(old(Shard[i].CreatedAt + Shard[i].Duration))
+//@   ensures [C16.complete.status] err == nil && old(forall j int :: 0 <= j && j < len(Order[msg.OrderId].Shards) && has(Shard, Order[msg.OrderId].Shards[j]) && Shard[Order[msg.OrderId].Shards[j]].Sp == msg.Provider ==> Shard[Order[msg.OrderId].Shards[j]].Status != ShardMigrating) ==> has(Order, msg.OrderId) && Order[msg.OrderId].Status == OrderCompleted
+//@   ensures [C04.complete.deposit] [C06.complete.deposit] err == nil && old(forall j int :: 0 <= j && j < len(Order[msg.OrderId].Shards) && has(Shard, Order[msg.OrderId].Shards[j]) && Shard[Order[msg.OrderId].Shards[j]].Sp == msg.Provider ==> Shard[Order[msg.OrderId].Shards[j]].Status != ShardMigrating) && old(Order[msg.OrderId].Status) != OrderCompleted && moduleAddr("order") != moduleAddr("market")
 //@       && old(Order[msg.OrderId].Operation) != 2 && addr(msg.Provider) != moduleAddr("order") && moduleAddr("node") != moduleAddr("order") ==>
 //@       bal(moduleAddr("order"), old(Order[msg.OrderId].Amount.Denom)) == old(bal(moduleAddr("order"), Order[msg.OrderId].Amount.Denom)) - old(Order[msg.OrderId].Amount.Amount)
 //@   ensures [C10.complete.assigned] err == nil ==> old(has(Order, msg.OrderId)) && exists j int :: 0 <= j && j < len(old(Order[msg.OrderId].Shards))
